@@ -135,7 +135,9 @@ var vfC08Families = map[string][]string{
 	"Ed25519":   {"Ed25519"},
 	"Secp256k1": {"Secp256k1"},
 	"ECDSA":     {"ECDSA", "ECDSA-P384", "ECDSA-P521", "ECDSA-P224"},
-	"RSA":       {"RSA", "RSA3072", "RSA4096"}, // 2048 is also the minimum size the package accepts
+	// 2048 is also the minimum size the package accepts; the off-grid members have a modulus whose bit length
+	// is not a multiple of 8 (or sits just beside a byte boundary)
+	"RSA": {"RSA", "RSA3072", "RSA4096", "RSA2049", "RSA2050", "RSA2055", "RSA2056", "RSA3071", "RSA3073"},
 }
 
 func vfC08AllConcrete() []string {
@@ -240,7 +242,7 @@ func vfC08Gen(kt string, i int) vfC08Pair {
 	var pub crypto.PubKey
 	var err error
 	switch kt {
-	case "RSA", "RSA3072", "RSA4096":
+	case "RSA", "RSA3072", "RSA4096", "RSA2049", "RSA2050", "RSA2055", "RSA2056", "RSA3071", "RSA3073":
 		return vfC08RSA(kt, i)
 	case "Ed25519":
 		priv, pub, err = crypto.GenerateKeyPairWithReader(crypto.Ed25519, 0, rand.Reader)
